@@ -1,30 +1,83 @@
-(* C03 — valid edits are written exactly and nothing else changes (tree layer).  Headline theorems only.
-   The exactness of the rendering of a new value is C05's theorem; which leaf a setter writes is tied by
-   correspondence (harness/props/C03.py). *)
+(* C03 — valid edits are written exactly and nothing else changes.  Headline theorems only (proofs:
+   Proofs/TreeProofs.v).  How a new NUMBER is spelled is C05's theorem (Model/Num.v); which leaf a setter writes is
+   tied by correspondence and search (harness/props/_rtcommon.py, harness/rt.py). *)
 From Coq Require Import List String.
 From MPV Require Import Model.Tree Proofs.TreeProofs.
 Import ListNotations.
 Open Scope string_scope.
 
-(* the edited leaf carries its new rendering r, and the rest of the input's text is unchanged *)
-Theorem C03_edit_written : forall path n r tok pad np hv ed,
-  leaf_at path n = Some (NV tok pad np hv ed) ->
-  exists pre post old,
+(* one edit: the text before and after the leaf is byte-identical; [old] is what the leaf contributed before,
+   [new] is the new rendering r in the leaf's field (ValueNode.format's width / blank logic) *)
+Theorem C03_edit_written : forall path n r tok pad np hv ed vl,
+  leaf_at path n = Some (NV tok pad np hv ed vl) ->
+  exists pre post old new,
     fst (format n) = pre ++ old ++ post
-    /\ fst (format (set_leaf path r n)) = pre ++ r ++ post
-    /\ old_text old tok pad np hv ed.
+    /\ fst (format (set_leaf path r n)) = pre ++ new ++ post
+    /\ old_text old tok pad np hv ed vl
+    /\ new_text new r tok pad np vl.
 Proof. exact edit_local. Qed.
 Print Assumptions C03_edit_written.
 
-(* a sequence of edits: a leaf that is not named by an edit keeps its content *)
+(* "each edited quantity carries its new value": that new text starts with the new rendering *)
+Theorem C03_new_value_visible : forall new r tok pad np vl,
+  new_text new r tok pad np vl -> exists tail, new = r ++ tail.
+Proof. exact new_text_prefix. Qed.
+Print Assumptions C03_new_value_visible.
+
+(* one edit does not change what is found at any other path *)
 Theorem C03_other_quantities_keep_value : forall p q n r l,
-  p <> q -> leaf_at q n = Some l -> leaf_at p n <> None ->
-  leaf_at q (set_leaf p r n) = Some l.
+  p <> q -> leaf_at q n = Some l -> leaf_at q (set_leaf p r n) = Some l.
 Proof. exact edit_other_leaves. Qed.
 Print Assumptions C03_other_quantities_keep_value.
 
+(* a SEQUENCE of edits (any length, any order, repeated edits of the same quantity): every leaf that no edit
+   names is as it was (induction on the program) ... *)
+Theorem C03_edit_sequence_others : forall es q n,
+  (forall e, In e es -> fst e <> q) -> leaf_at q (apply_edits es n) = leaf_at q n.
+Proof. exact edits_other_paths. Qed.
+Print Assumptions C03_edit_sequence_others.
+
+(* ... and a named leaf carries the rendering of the LAST edit that names it *)
+Theorem C03_edit_sequence_last_wins : forall es1 es2 p r n l,
+  leaf_at p n = Some l -> (forall e, In e es2 -> fst e <> p) ->
+  exists l', leaf_at p (apply_edits (es1 ++ (p, r) :: es2) n) = Some l' /\ leaf_edit l' = Some r.
+Proof. exact edits_last_wins. Qed.
+Print Assumptions C03_edit_sequence_last_wins.
+
+(* per-particle importance: the particles of one entry 'imp:n,p=1' share ONE tree in the source; setting one
+   (Importance.__setitem__ with _unshare_tree, 11534b6) leaves every other particle's importance as it was ... *)
+Theorem C03_importance_independent : forall st p q v,
+  owner_in_range st -> q <> p -> imp_get (imp_set st p v) q = imp_get st q.
+Proof. exact imp_independent. Qed.
+Print Assumptions C03_importance_independent.
+
+(* ... and gives p the new value *)
+Theorem C03_importance_set : forall st p v i t,
+  lookup p (owner st) = Some i -> nth_error (trees st) i = Some t ->
+  imp_get (imp_set st p v) p = Some v.
+Proof. exact imp_set_get. Qed.
+Print Assumptions C03_importance_set.
+
+(* the setter before 11534b6 wrote into the shared tree: independence was false (witness: imp:n,p=1, n := 2) *)
+Theorem C03_importance_shared_old_refuted :
+  exists st p q v, q <> p /\ imp_wf st /\ imp_get (imp_set_old st p v) q <> imp_get st q.
+Proof. exact imp_old_shared_refuted. Qed.
+Print Assumptions C03_importance_shared_old_refuted.
+
+(* non-vacuity: leaves exist, edits change the text as stated, the shared importance entry is split *)
 Example C03_nonvacuous :
-  fst (format (set_leaf [1] "7 " ex_tree)) = "10 7 1 2 3 $ c1 2r" /\
-  fst (format (set_leaf [2; 0] "1.5" ex_tree)) = "10 1.5 2 3 $ c1 2r".
+  fst (format (set_leaf [1] "7" ex_tree)) = "10 7 imp:n,p=1 2.50  3 2r 3 $ c" ++ nl /\
+  fst (format (set_leaf [3; 2] "9" ex_tree)) = "10 imp:n,p=1 9     3 2r 3 $ c" ++ nl /\
+  fst (format (set_leaf [3; 2] "2.123456" ex_tree)) = "10 imp:n,p=1 2.123456 3 2r 3 $ c" ++ nl.
 Proof. exact ex_edit. Qed.
 Print Assumptions C03_nonvacuous.
+
+Example C03_importance_nonvacuous :
+  imp_wf ex_imp /\ owner_in_range ex_imp /\
+  imp_get (imp_set ex_imp "n" "2") "p" = Some "1" /\ imp_get (imp_set ex_imp "n" "2") "n" = Some "2"
+  /\ map it_parts (imp_written (imp_set ex_imp "n" "2")) = [["n"]; ["p"]; ["e"]]
+  /\ map it_value (imp_written (imp_set ex_imp "n" "2")) = ["2"; "1"; "0"].
+Proof.
+  split; [exact ex_imp_wf|]. split; [apply imp_wf_in_range; exact ex_imp_wf|]. exact ex_imp_set.
+Qed.
+Print Assumptions C03_importance_nonvacuous.
